@@ -2,6 +2,8 @@
 // first lines (so that texts starting inside a cluster / with a mark occur), x dir flags 0..7 x {font NULL, ppm 16}.
 #include "common/corpus.hpp"
 #include "common/segcheck.hpp"
+#include "common/memface.hpp"
+#include "ref/cmap_ref.hpp"
 #include <dirent.h>
 #include <algorithm>
 using namespace vf;
@@ -24,6 +26,11 @@ static void setup(Runner &r, const Tier &t) {
     r.body = [](uint64_t i, ShardCtl &ctl) { const Case &c = g_cases[i]; const std::string &tx = g_items[c.font][c.item]; gr_face *f = g_fc->get(g_fonts[c.font], gr_face_preloadAll); if (!f) return; static std::map<gr_face*, gr_font*> fonts; gr_font *&font = fonts[f]; if (!font) font = gr_make_font(16.f, f);
         std::vector<ref::Decoded> dec; { size_t p = 0; const uint8_t *b = (const uint8_t*)tx.data(); while (p < tx.size()) { ref::Decoded d = ref::dec8(b + p, tx.size() - p, p); dec.push_back(d); p += d.units; } }
         int ng = gr_face_n_glyphs(f);
+        // premise of the gid clause: the font names only real glyphs.  The cmap is such a place too (C13 makes the cmap's answer the initial glyph, whatever it is):
+        // a text one of whose characters the font's own cmap (reference reader) sends to a glyph id >= n_glyphs is outside the clause
+        { struct Prem { TableSet ts; ref::CmapRef cr; bool ok = false; }; static std::map<gr_face*, Prem> prem; auto it = prem.find(f);
+          if (it == prem.end()) { Prem &p = prem[f]; p.ts.from_file(g_fonts[c.font]); auto cm = p.ts.t.find(mktag("cmap")); if (cm != p.ts.t.end()) { p.cr.choose(cm->second); p.ok = true; } it = prem.find(f); }
+          if (it->second.ok) for (auto &d : dec) if (d.ok && int(it->second.cr.lookup(d.usv)) >= ng) { ng = -1; ctl.counters[1] = ctl.counters[1] + 1; break; } }
         for (int dir = 0; dir < 8; ++dir) for (int wf = 0; wf < (dir < 2 ? 2 : 1); ++wf) { gr_segment *s = gr_make_seg(wf ? font : nullptr, f, 0, nullptr, gr_utf8, tx.c_str(), dec.size(), dir); ctl.counters[0] = ctl.counters[0] + 1; if (!s) continue;
             SegExpect e; e.nchars = dec.size(); e.chars = &dec; e.strict_chars = true; e.n_glyphs = ng; std::vector<SegViolation> v; check_segment(s, e, v);
             if (gr_seg_n_slots(s) > 64 * (dec.empty() ? 1 : dec.size())) { JObj o; o.kv("prop", "C02").kv("kind", "slot_cap_exceeded").kv("font", g_fonts[c.font]).kv("text_utf8_hex", hex(tx.data(), tx.size())).kv("dir", dir); report_fail(i, o); }
@@ -65,4 +72,4 @@ static void setup_enc(Runner &r, const Tier &) {
             gr_seg_destroy(s); }
         ctl.cls(uint64_t(c.enc) * 1000003 + c.code * 7 + c.len); };
 }
-int main(int argc, char **argv) { std::vector<Sub> subs; { Sub s; s.name = "shipped_corpora"; s.setup = setup; s.budget_quick = 140; s.budget_thorough = 1200; s.counter_names = { "segments_on_accepted_mutants" }; subs.push_back(s); } { Sub s; s.name = "encodings"; s.setup = setup_enc; s.budget_quick = 60; s.budget_thorough = 120; s.counter_names = { "segments" }; subs.push_back(s); } return check_main(argc, argv, "C03c", subs); }
+int main(int argc, char **argv) { std::vector<Sub> subs; { Sub s; s.name = "shipped_corpora"; s.setup = setup; s.budget_quick = 140; s.budget_thorough = 1200; s.counter_names = { "segments_on_accepted_mutants", "texts_outside_the_gid_clause_cmap_names_a_missing_glyph" }; subs.push_back(s); } { Sub s; s.name = "encodings"; s.setup = setup_enc; s.budget_quick = 60; s.budget_thorough = 120; s.counter_names = { "segments" }; subs.push_back(s); } return check_main(argc, argv, "C03c", subs); }
